@@ -453,7 +453,7 @@ func c02Metadata(c *run.Ctx, idx uint64) {
 		case 0:
 			for j := 0; j < r.Pick(4, 4, 4, 3, 5, 0); j++ {
 				if r.Chance(1, 4) {
-					ch.Nat(uint32(r.Pick(int(f32bits4(float32(math.Inf(1)))), int(f32bits4(float32(math.NaN()))), int(f32bits4(-1e30)), int(f32bits4(1e30)))), 4)
+					ch.Nat(f32bits4(float32(r.PickF(math.Inf(1), math.Inf(-1), math.NaN(), -math.NaN(), -1e30, 1e30, -3.4e38, 3.4e38))), 4)
 				} else {
 					ch.Num(r)
 				}
